@@ -267,6 +267,15 @@ template<class F> static void add_ctor(const std::string &name, const std::strin
 			if (op == 1) for (size_t k = 0; k < nl; k++) if (k != i && k != j) { std::vector<std::string> l3 = l2; l3[k] = "0"; t.pinned.push_back({ join(l3), "neg" + std::to_string(i) + "+dbl" + std::to_string(j) + "+zero" + std::to_string(k) }); break; }
 		}
 	}
+	// order AND stored cofactor negated together (p = qk + 1 still holds), plus one further line congruent to 0: lines 1..3 hold
+	// q and k in every published format (p q g k | p q k h g.. | p q g h ..), so all pairs among them are negated
+	// (GrothVSSHE embeds a commitment scheme description behind its own four lines: the same again from line 4)
+	for (size_t base = 0; base <= (name == "groth-vsshe" ? 4u : 0u); base += 4)
+	for (size_t i = base + 1; i < base + 4 && i < lines.size(); i++) for (size_t j = i + 1; j < base + 4 && j < lines.size(); j++)
+		for (size_t k = base; k < base + 8 && k < lines.size(); k++) if (k != i && k != j) for (int z = 0; z < 2; z++) {
+			std::vector<std::string> l2 = lines; l2[i] = neg(lines[i]); l2[j] = neg(lines[j]); l2[k] = z ? lines[base] : std::string("0");
+			t.pinned.push_back({ join(l2), "neg" + std::to_string(i) + "+neg" + std::to_string(j) + (z ? "+mod@" : "+zero@") + std::to_string(k) });
+		}
 }
 
 // elements offered to CheckElement / TestMembership after a constructor whose CheckGroup succeeded: the remaining lines of
